@@ -2,7 +2,7 @@
 //! GROUP: semaphore
 //! MODULE: sync::semaphore::kani_verif
 //! TAGS: C01 C05 C06 C07 C17 C18
-//! N: quick=2 thorough=2
+//! N: quick=4 thorough=4
 //! UNWIND_EXTRA: 3
 //! KIND: harness (concrete queue shape and fairness, symbolic permits / request sizes / remaining state)
 //! BOUNDED: N acquire futures; every queue shape enumerated; permits and requests < 8
